@@ -17,6 +17,7 @@
 (*                      r, followed by the full-sync request / response when they do not   *)
 (*                      connect (HandleHeadUpdate, HandleStreamRequest, HandleResponse)     *)
 (*   Tamper(r,kind,..)  a mutated / misplaced / unaccepted record is handed to AddRawRecord*)
+(*   BuildTampered(..)  a list is built from a log that holds such a record in place k       *)
 (*   AddBatchTail(..)   AddRawRecords(log[i..j] ++ <<such a record made for the state after*)
 (*                      record j>>): the accepted records stay, the tail leaves no trace    *)
 (*                                                                                         *)
@@ -35,6 +36,8 @@
 (*   BatchOnSharedCopy       AddRawRecords applies the whole batch to one copy of the state *)
 (*                           and commits that copy with the records in front of a refused   *)
 (*                           one (the refused record's first contents come along)          *)
+(*   BuildTrustsStorage      building a list decodes the stored / served records without     *)
+(*                           checking acceptor, author signature and id                      *)
 EXTENDS Integers, Sequences, FiniteSets, TLC
 
 CONSTANTS Accounts,     \* account names besides the owner "o" (strings)
@@ -43,7 +46,7 @@ CONSTANTS Accounts,     \* account names besides the owner "o" (strings)
           GrantPerms,   \* permissions that add / accept / change / anyone-invites hand out
           MaxContents,  \* 1..2 contents per record
           Cfgs,         \* set of configurations [Replicas -> [mode, storage, ident]]
-          ServeFromIndexNotOrder, TrustScanOrder, SwapBeforeApply, BatchOnSharedCopy
+          ServeFromIndexNotOrder, TrustScanOrder, SwapBeforeApply, BatchOnSharedCopy, BuildTrustsStorage
 
 Owner == "o"
 All   == {Owner} \cup Accounts
@@ -395,7 +398,8 @@ TamperKinds == {"byte", "id", "prevId", "authorSig", "acceptorSig", "nonHeadPrev
 TamperedAt(at, s, kind, other, a, cs) ==
     LET nxt == IF at < Len(log) THEN log[at + 1] ELSE RootRec
     IN CASE kind = "byte"        -> [nxt EXCEPT !.cidOk = FALSE]            \* payload byte changed, id kept
-         [] kind = "id"          -> [nxt EXCEPT !.id = 0, !.cidOk = FALSE]  \* another id on the same bytes
+         [] kind = "id"          -> [nxt EXCEPT !.id = 0, !.cidOk = FALSE]  \* another id on the same bytes (another digest, or
+                                                                            \* another spelling of the same digest: the id is a string)
          [] kind = "prevId"      -> [nxt EXCEPT !.id = 0, !.prev = other, !.sigOk = FALSE, !.accOk = FALSE] \* PrevId rewritten, both signatures stale, id recomputed
          [] kind = "authorSig"   -> [nxt EXCEPT !.id = 0, !.sigOk = FALSE]
          [] kind = "acceptorSig" -> [nxt EXCEPT !.id = 0, !.accOk = FALSE]
@@ -437,6 +441,33 @@ AddBatchTail(r, i, j, kind, other, a, cs) ==
           /\ okRej' = (t.res # "ok" /\ t.x = AddMany(r, Rep(r), good, 1))
     /\ UNCHANGED <<log, lst, cfg, okCatch, okMig>>
 
+\* Building a list is the other way records enter it: BuildAclListWithIdentity over a storage that
+\* holds records received from the network (NewInMemoryStorage(served records): joining client, acl
+\* waiter, node-side acl object) or over a database whose rows may have been altered. Every record is
+\* verified again while it is loaded, so a log log[1..k-1] ++ <<refusable record in place k>> ++
+\* log[k+1..m] must not yield a list that contains the refusable record: the build fails.
+RECURSIVE BuildGo(_, _, _, _)
+BuildGo(r, recs, s, n) ==
+    IF n > Len(recs) THEN TRUE
+    ELSE LET rec == recs[n]
+         IN IF ~BuildTrustsStorage /\ ((NeedsAcceptor(r) /\ ~rec.accOk) \/ ~rec.sigOk \/ ~rec.cidOk) THEN FALSE
+            ELSE IF rec.prev # s.head THEN FALSE
+            ELSE IF Validates(r) /\ ~ApplyRec(s, rec).ok THEN FALSE
+            ELSE BuildGo(r, recs, [ApplyRec(s, rec).s EXCEPT !.head = rec.id], n + 1)
+BuildChecked(r, recs) ==
+    IF recs[1].cidOk \/ BuildTrustsStorage THEN BuildGo(r, recs, RootState, 2) ELSE FALSE    \* the root is verified as well
+
+ChainKinds == {"byte", "id", "prevId", "authorSig", "acceptorSig", "nonHeadPrev"}   \* made from the record in place k
+BuildTampered(r, k, m, kind, other, a, cs) ==
+    /\ k \in 1..(Len(log) + 1) /\ kind \in TailKinds
+    /\ k = 1 => kind = "byte"
+    /\ TamperEnabledAt(r, k - 1, kind, other, a, cs)
+    /\ IF kind \in ChainKinds THEN m \in k..Len(log) ELSE m = k
+    /\ LET tampered == TamperedAt(k - 1, F(SubSeq(log, 1, k - 1)), kind, other, a, cs)
+           recs == SubSeq(log, 1, k - 1) \o <<tampered>> \o (IF kind \in ChainKinds THEN SubSeq(log, k + 1, m) ELSE <<>>)
+       IN okRej' = ~BuildChecked(r, recs)
+    /\ UNCHANGED <<log, lst, cfg, applied, st, mem, stor, okCatch, okMig>>
+
 Next ==
     \/ \E a \in All : \E cs \in ValidCs(lst, a, Len(log) + 1) : Accept(a, cs)
     \/ \E r \in Replicas : AddOne(r)
@@ -453,6 +484,12 @@ Next ==
     \/ \E r \in Replicas, a \in All : \E i \in 1..MaxLog, j \in 2..MaxLog :
           /\ j \in (applied[r] + 1)..Len(log)
           /\ \E cs \in BadCs(F(SubSeq(log, 1, j)), a) : AddBatchTail(r, i, j, "unaccepted", 0, a, cs)
+
+    \/ \E r \in Replicas, kind \in TailKinds \ {"unaccepted"} : \E k \in 1..MaxLog, m \in 1..MaxLog, other \in 0..MaxLog :
+          BuildTampered(r, k, m, kind, other, Owner, <<>>)
+    \/ \E r \in Replicas, a \in All : \E k \in 2..MaxLog :
+          /\ k <= Len(log) + 1
+          /\ \E cs \in BadCs(F(SubSeq(log, 1, k - 1)), a) : BuildTampered(r, k, k, "unaccepted", 0, a, cs)
 
 Spec == Init /\ [][Next]_vars
 
